@@ -35,4 +35,6 @@ VARIANTS = [
     # F28: the pre-repair form
     V("seek-beyond-the-last-frame(F28)", "src/soundevent/audio/io.py", "        fp.seek(min(offset, fp.frames))\n", "        fp.seek(offset)\n", "R15.6"),
     V("N-seek-capped-other-order", "src/soundevent/audio/io.py", "        fp.seek(min(offset, fp.frames))\n", "        fp.seek(min(fp.frames, offset))\n", None),
+    V("N-seek-capped-conditional", "src/soundevent/audio/io.py", "        fp.seek(min(offset, fp.frames))\n", "        fp.seek(offset if offset < fp.frames else fp.frames)\n", None),
+    V("N-seek-capped-through-local-and-len", "src/soundevent/audio/io.py", "        fp.seek(min(offset, fp.frames))\n", "        position = min(offset, len(fp))\n        fp.seek(position)\n", None),
 ]
